@@ -198,8 +198,10 @@ PROPS['C19'] = dict(
 PROPS['C20'] = dict(
     bounds="addresses: the C03 layout grid and a zero-sized payload; forwarding: Eq/PartialEq/PartialOrd/Ord/Hash/Default/From on Cc<T> for T in "
            "{u32, i16, (i8,u8), [u8;2]} and PartialEq/PartialOrd on Cc<f64> with fully symbolic values (NaN and signed zeros included, z3 FloatingPoint), "
-           "also a Cc compared with its own clone",
-    outside="Debug/Display/Pointer formatting (needs core::fmt internals that are not in the IR) - not claimed; f32",
+           "also a Cc compared with its own clone; Debug/Display/Pointer: 12 format specs (width, fill, alignment, sign, zero padding, precision, alternate, hex-debug) through the "
+           "real core::fmt::write of the whole-program (fat LTO) IR, with a symbolic Ok/Err result of the payload's fmt",
+    outside="f32; formatting of payload types other than the recording probe (the claim is 'forwards to T with the caller's Formatter', decided on 12 format specs)",
     runs=both('h_layout_grid', 'faw', covers=[1]) + both('h_forward_ints', covers=[1]) + both('h_forward_f64', covers=[1]) + [R('h_layout_zst', covers=[1])]
+         + [R('h_fmt_forward', 'fa', 'dev', covers=[1], lto=True), R('h_fmt_twin', 'fa', 'dev', Q, twin=True, lto=True)]
          + twin('h_layout_twin', 'faw'),
 )
